@@ -243,42 +243,89 @@ def rule_density_orientation(ctx):
 def rule_unnormalised_exponent(ctx):
     r = RuleResult(
         "unnormalised-exponent",
-        "a route that computes a local expectation / reduced density matrix from a *slice or selection* of the state "
-        "(self[i:j], select*(), a local cluster) loses the state's stored exponent, which a selection does not carry; when the "
-        "unnormalised value can be requested (`normalized` parameter) the route must read self.exponent (scaling by "
-        "10**(2*exponent)) — and the cluster constructor must hand the exponent to the cluster it returns",
+        "a route of a state class that computes a local expectation / reduced density matrix from a *piece* of the state "
+        "(self[i], self[i:j], select*(), a local cluster, boundary / plaquette / cell environments) loses the state's stored "
+        "exponent, which a piece does not carry; when the unnormalised value can be returned (`normalized` parameter, or no "
+        "normalisation at all) the route must read self.exponent into a value (scaling by 10**(2*exponent)) — and the cluster "
+        "constructor must hand the exponent to the cluster it returns",
     )
     SELECT = {"select", "select_any", "select_all", "_select_local_tids", "select_local"}
+    ENVS = {"_maybe_compute_cell_env", "compute_plaquette_environments", "compute_environments", "compute_left_environments", "compute_right_environments"}
+    EVAL = {"contract", "to_dense"}
+
+    def is_state_class(c):
+        return any(k.name.endswith("Vector") for k in c.mro)
+
     n = 0
-    for modname in ("quimb.tensor.tn1d.core", "quimb.tensor.tnag.core"):
+    for modname in ("quimb.tensor.tn1d.core", "quimb.tensor.tnag.core", "quimb.tensor.tn2d.core", "quimb.tensor.tn3d.core"):
         mod = ctx.prog.modules.get(modname)
         for f in mod.all_functions:
             if f.is_alias or isinstance(f.node, ast.Lambda) or f.cls is None or f.parent is not None:
                 continue
+            if not is_state_class(f.cls):
+                continue
             is_cluster_ctor = f.name == "get_cluster"
-            if "normalized" not in f.params and not is_cluster_ctor:
+            has_norm = "normalized" in f.params
+            walk = list(_own_walk(f.node))
+            pieces = [x for x in walk if isinstance(x, ast.Subscript) and isinstance(x.value, ast.Name) and x.value.id == "self" and isinstance(x.ctx, ast.Load)]
+            pieces += [x for x in walk if isinstance(x, ast.Call) and isinstance(x.func, ast.Attribute) and x.func.attr in SELECT
+                       and not any(k.arg == "with_exponent" and isinstance(k.value, ast.Constant) and k.value.value is True for k in x.keywords)]
+            pieces += [x for x in walk if isinstance(x, ast.Call) and isinstance(x.func, ast.Attribute) and x.func.attr in ENVS]
+            if not pieces:
                 continue
-            sliced = [x for x in _own_walk(f.node) if isinstance(x, ast.Subscript) and isinstance(x.value, ast.Name) and x.value.id == "self" and isinstance(x.slice, ast.Slice)]
-            selected = [x for x in _own_walk(f.node) if isinstance(x, ast.Call) and isinstance(x.func, ast.Attribute) and x.func.attr in SELECT
-                        and not any(k.arg == "with_exponent" and isinstance(k.value, ast.Constant) and k.value.value is True for k in x.keywords)]
-            if not sliced and not selected:
-                continue
-            # only routes that turn the selection into a value themselves (contract / to_dense), or the cluster constructor
-            evaluates = any(isinstance(x, ast.Call) and isinstance(x.func, ast.Attribute) and x.func.attr in ("contract", "to_dense") for x in _own_walk(f.node))
-            if not evaluates and not is_cluster_ctor:
+            evals = [x for x in walk if isinstance(x, ast.Call) and isinstance(x.func, ast.Attribute) and x.func.attr in EVAL]
+            if has_norm or is_cluster_ctor:
+                relevant = bool(evals) or is_cluster_ctor
+            else:
+                # no normalisation at all: the route is relevant when what it returns is computed by evaluating a piece
+                # (def-use: locals bound to a piece, or derived from such a local, used as receiver / argument of the evaluation)
+                derived = set()
+                piece_ids = {id(p) for p in pieces}
+                changed = True
+                while changed:
+                    changed = False
+                    for a in walk:
+                        if isinstance(a, ast.Assign) and len(a.targets) == 1 and isinstance(a.targets[0], ast.Name) and a.targets[0].id not in derived:
+                            if any(id(y) in piece_ids or (isinstance(y, ast.Name) and y.id in derived) for y in ast.walk(a.value)):
+                                derived.add(a.targets[0].id)
+                                changed = True
+                ev_piece = [e for e in evals if (isinstance(e.func.value, ast.Name) and e.func.value.id in derived)
+                            or any(isinstance(y, ast.Name) and y.id in derived for a_ in e.args for y in ast.walk(a_))]
+                rets = [x.value for x in walk if isinstance(x, ast.Return) and x.value is not None]
+                ret_names = {y.id for v in rets for y in ast.walk(v) if isinstance(y, ast.Name)}
+                ev_ids = {id(e) for e in ev_piece}
+                val_names = {a.targets[0].id for a in walk if isinstance(a, ast.Assign) and len(a.targets) == 1 and isinstance(a.targets[0], ast.Name)
+                             and any(id(y) in ev_ids for y in ast.walk(a.value))}
+                returns_eval = any(id(y) in ev_ids for v in rets for y in ast.walk(v)) or bool(val_names & ret_names)
+                # a scalar / array result only: routes handing back tensors or networks keep their own exponent bookkeeping
+                relevant = bool(ev_piece) and returns_eval and not f.name.startswith("_") and _returns_plain_value(f, ev_ids, val_names)
+            if not relevant:
                 continue
             n += 1
             # the read has to reach a value (an assignment / argument), a read inside a branch test alone scales nothing
-            in_tests = {id(y) for x in _own_walk(f.node) if isinstance(x, (ast.If, ast.IfExp, ast.While)) for y in ast.walk(x.test)}
-            reads = any(isinstance(x, ast.Attribute) and x.attr == "exponent" and isinstance(x.value, ast.Name) and x.value.id == "self" and id(x) not in in_tests for x in _own_walk(f.node))
+            in_tests = {id(y) for x in walk if isinstance(x, (ast.If, ast.IfExp, ast.While)) for y in ast.walk(x.test)}
+            reads = any(isinstance(x, ast.Attribute) and x.attr == "exponent" and isinstance(x.value, ast.Name) and x.value.id == "self" and id(x) not in in_tests for x in walk)
             construct = f.qualname
+            first = pieces[0]
+            what = "a slice / site tensor of the state" if isinstance(first, ast.Subscript) else f"`{src_of(first)[:40]}`"
             if reads:
-                r.ok(construct, sample={"route": f.qualname, "built from": "slice of self" if sliced else src_of(selected[0])[:40], "exponent": "read"})
+                r.ok(construct, sample={"route": f.qualname, "built from": what, "exponent": "read"})
             else:
-                what = "a slice of the state" if sliced else f"`{src_of(selected[0])[:40]}`"
                 r.bad(Finding("unnormalised-exponent", construct,
-                              f"computes its value from {what}, which does not carry self.exponent, and never reads self.exponent: with normalized=False the value "
-                              "is off by 10**(2*exponent) for any state with a stored exponent (e.g. after equalize_norms_(1.0))",
+                              f"computes its value from {what}, which does not carry self.exponent, and never reads self.exponent into a value: the unnormalised "
+                              "result is off by 10**(2*exponent) for any state with a stored exponent (e.g. after equalize_norms_(1.0))",
                               where=f"{f.module.relpath}:{f.lineno}", operand="exponent"))
-    r.floor(n, 3, "expectation routes built from a selection of the state")
+    r.floor(n, 6, "expectation routes built from a piece of the state")
     return r
+
+
+def _returns_plain_value(f, ev_ids, val_names):
+    """True when every return of f hands back the evaluated value itself (possibly rescaled), not a container / network."""
+    rets = [x.value for x in _own_walk(f.node) if isinstance(x, ast.Return) and x.value is not None]
+    if not rets:
+        return False
+    for v in rets:
+        if id(v) in ev_ids or (isinstance(v, ast.Name) and v.id in val_names):
+            continue
+        return False
+    return True
